@@ -97,8 +97,10 @@ def block_sum_oracle(cfg, orc, kv, transposed=False):
     return [[(v_sum(A[u][v]) if A[u][v] else 0.0) for v in range(nd)] for u in range(nd)]
 
 
-def make_assembly_harness(cfg):
+def make_assembly_harness(cfg, goals, rows=None, per_entry=False):
+    """goals: subset of ASM_GOALS; rows: the matrix rows u this harness owns (sharding); per_entry: one query per (u, v)"""
     nd, nD, nEl = cfg.ndof, cfg.nD, cfg.nEl
+    rows = list(range(nd)) if rows is None else list(rows)
 
     def fn(ex):
         member = draw_member(ex, cfg)
@@ -110,7 +112,6 @@ def make_assembly_harness(cfg):
             dm, _ = build_dof_manager(cfg, member, True)
             asm = load_assembler_module()
             K = asm.assemble_sparse_stiffness_matrix(dense_pa(kv, 'f', (nEl, 3, cfg.dim, 3, cfg.dim)), conns, dm)
-            n = raw(K.shape[0])
             entry = K.entry
             shape_ok = [i_eq(raw(K.shape[0]), orc.nfree), i_eq(raw(K.shape[1]), orc.nfree)]
         else:
@@ -126,21 +127,253 @@ def make_assembly_harness(cfg):
             n = Kd.shape[0]
             entry = lambda u, v: float(Kd[u, v]) if (u < n and v < n) else 0.0
             shape_ok = [Kd.shape == (int(orc.nfree), int(orc.nfree))]
-        ex.goal('assembled_shape_is_unknowns_by_unknowns', Holds(shape_ok))
+        if 'assembled_shape_is_unknowns_by_unknowns' in goals:
+            ex.goal('assembled_shape_is_unknowns_by_unknowns', Holds(shape_ok))
         A = block_sum_oracle(cfg, orc, kv)
-        inside = [[b_and(i_lt(u, orc.nfree), i_lt(v, orc.nfree)) for v in range(nd)] for u in range(nd)]
-        ent = [[entry(u, v) for v in range(nd)] for u in range(nd)]
-        pick = lambda M, T=False: [ite(inside[u][v], (M[v][u] if T else M[u][v]), 0.0, 'f') for u in range(nd) for v in range(nd)]
-        scale = 1.0
-        ex.goal('assembled_entry_is_the_block_sum_for_symmetric_blocks', Eq(pick(ent), pick(A), when=symblock, scale=scale),
-                info='hypothesis: kValues[e,i,j] == kValues[e,j,i]')
-        ex.goal('assembled_matrix_is_symmetric_for_symmetric_blocks', Eq(pick(ent), pick(ent, True), when=symblock, scale=scale))
-        ex.goal('assembled_entry_is_the_block_sum_transposed_for_arbitrary_blocks', Eq(pick(ent), pick(A, True), scale=scale),
-                info='what the code computes for unsymmetric blocks: entry (u,v) collects kValues[e,j,i]')
-        ex.goal('assembled_entry_is_the_block_sum_for_arbitrary_blocks', Eq(pick(ent), pick(A), scale=scale),
-                info='entry (u,v) = sum of kValues[e,i,j] with unknown(e,i)=u, unknown(e,j)=v, no symmetry hypothesis on the blocks')
+        inside = {(u, v): b_and(i_lt(u, orc.nfree), i_lt(v, orc.nfree)) for u in range(nd) for v in range(nd)}
+        ent = {}
+
+        def E(u, v):
+            if (u, v) not in ent:
+                ent[u, v] = entry(u, v)
+            return ent[u, v]
+        sides = {
+            'assembled_entry_is_the_block_sum_for_symmetric_blocks': (lambda u, v: E(u, v), lambda u, v: A[u][v], symblock,
+                                                                      'hypothesis: kValues[e,i,j] == kValues[e,j,i]'),
+            'assembled_matrix_is_symmetric_for_symmetric_blocks': (lambda u, v: E(u, v), lambda u, v: E(v, u), symblock, 'hypothesis: kValues[e,i,j] == kValues[e,j,i]'),
+            'assembled_entry_is_the_block_sum_transposed_for_arbitrary_blocks': (lambda u, v: E(u, v), lambda u, v: A[v][u], True,
+                                                                                 'what the code computes for unsymmetric blocks: entry (u,v) collects kValues[e,j,i]'),
+            'assembled_entry_is_the_block_sum_for_arbitrary_blocks': (lambda u, v: E(u, v), lambda u, v: A[u][v], True,
+                                                                      'entry (u,v) = sum of kValues[e,i,j] with unknown(e,i)=u, unknown(e,j)=v; no symmetry hypothesis on the blocks'),
+        }
+        for g in goals:
+            if g not in sides:
+                continue
+            lhs, rhs, when, info = sides[g]
+            pairs = [(u, v) for u in rows for v in range(nd)]
+            groups = [[p] for p in pairs] if per_entry else [pairs]
+            for grp in groups:
+                ex.goal(g, Eq([ite(inside[u, v], lhs(u, v), 0.0, 'f') for u, v in grp], [ite(inside[u, v], rhs(u, v), 0.0, 'f') for u, v in grp], when=when, scale=1.0),
+                        info='%s; entries %s' % (info, grp if len(grp) < 4 else 'rows %s' % rows))
     return fn
 
 
 ASM_GOALS = ['assembled_shape_is_unknowns_by_unknowns', 'assembled_entry_is_the_block_sum_for_symmetric_blocks', 'assembled_matrix_is_symmetric_for_symmetric_blocks',
              'assembled_entry_is_the_block_sum_transposed_for_arbitrary_blocks', 'assembled_entry_is_the_block_sum_for_arbitrary_blocks']
+
+
+def _asm_meta(h, cs, what):
+    from ..core import REPO
+    from optimism import FunctionSpace, SparseMatrixAssembler
+    D = FunctionSpace.DofManager
+    src = open(os.path.join(REPO, REL_ASM)).read()
+    h.encoded('optimism/SparseMatrixAssembler.py and optimism/FunctionSpace.py executed as source on padded arrays (assembler file sha1=%s)' % hashlib.sha1(src.encode()).hexdigest()[:12],
+              SparseMatrixAssembler.assemble_sparse_stiffness_matrix, D.__init__, D._make_hessian_coordinates, D._make_hessian_bc_mask)
+    h.bounds(*(['O1 bounded meshes (every assignment of the node-set membership flags = every BC mask, and ALL real block values, are covered by each query):'] + [c.describe() for c in cs]))
+    h.bounds(what)
+    h.assume_note('stub: scipy.sparse.coo_matrix((data,(row,col)), shape).tocsc() is the symbolic COO `SymCOO`: entry (u,v) = sum of the data entries whose coordinates are (u,v) '
+                  '(duplicates summed: scipy\'s documented semantics); its argument checks (equal lengths, indices within the shape) are goals (numpy_operations_defined); '
+                  'every replay runs the real scipy',
+                  'numpy / jax.numpy are the padded-array shims of vf.props.c14 (validated against real numpy on every concrete mask in C14-O0); kValues entries are free reals, '
+                  'moved but never combined by the code under test; symbolic integers are one-hot over their finite value sets',
+                  'one independent node set per field component (the mask then ranges over all 2^ndof values; overlapping / repeated sets are C14-O1)')
+    h.outside('meshes beyond the bound, element orders > 1 in O1 (the assembler is order-agnostic, not proved)',
+              'that the element blocks handed to the assembler are the element Hessians (O2-O4 / JAX autodiff trusted)')
+
+
+def _asm_cfgs():
+    return {'tri1_f2': Cfg('tri1_f2', *TRI1, 2, extra=False), 'tri2_f2': Cfg('tri2_f2', *TRI2, 2, extra=False), 'tri2b_f2': Cfg('tri2b_f2', *TRI2B, 2, extra=False)}
+
+
+@obligation(P, 'O1.assembly[tri1_f2]', cap=400)
+def o1_small(h):
+    """one triangle, 2 fields (6 dofs): shape; entry (u,v) = block sum for symmetric blocks; result symmetric; for arbitrary
+    blocks the result is the TRANSPOSED block sum — all masks, all block values, one query per goal"""
+    c = _asm_cfgs()['tri1_f2']
+    _asm_meta(h, [c], 'kValues: 36 free reals')
+    px.run_px(h, c.name, make_assembly_harness(c, ASM_GOALS[:4]), cap=120, order=('lra2', 'core'), expect_goals=ASM_GOALS[:4])
+
+
+def _register_o1_rows():
+    for name, tiers, goals in (('tri2_f2', ('quick', 'thorough'), ASM_GOALS[:2] + ASM_GOALS[3:4]), ('tri2b_f2', ('thorough',), ASM_GOALS[:4])):
+        for k in range(4):
+            rows = [k, k + 4]
+
+            def ob(h, name=name, rows=rows, goals=goals):
+                c = _asm_cfgs()[name]
+                _asm_meta(h, [c], 'kValues: 72 free reals; this obligation owns rows %s of the assembled matrix (one query per entry (u,v), v = 0..7)' % rows)
+                px.run_px(h, c.name, make_assembly_harness(c, goals, rows=rows, per_entry=True), cap=120, order=('lra2', 'core'), expect_goals=goals)
+            ob.__doc__ = ('two triangles / 4 nodes / 2 fields (8 dofs): entry (u,v) of assemble_sparse_stiffness_matrix(kValues, conns, dofManager) equals the sum over (e,i,j) with '
+                          'unknown(e,i)=u, unknown(e,j)=v of kValues[e,i,j] for symmetric blocks, and the transposed sum for arbitrary blocks — all masks, all block values')
+            obligation(P, 'O1.assembly[%s rows %d,%d]' % (name, rows[0], rows[1]), tiers=tiers, cap=900)(ob)
+
+
+_register_o1_rows()
+
+
+@obligation(P, 'O1.assembly_orientation', cap=400)
+def o1_orientation(h):
+    """narrow query: WITHOUT a symmetry hypothesis on the element blocks, entry (u,v) equals the sum of kValues[e,i,j] with
+    unknown(e,i)=u, unknown(e,j)=v (row index from the first block index). On the unchanged tree HessRowCoords/HessColCoords are
+    swapped relative to the C-order of kValues[hessian_bc_mask], so the assembled matrix is the transpose of that sum."""
+    c = _asm_cfgs()['tri1_f2']
+    _asm_meta(h, [c], 'kValues: 36 free reals, no symmetry hypothesis')
+    g = ['assembled_entry_is_the_block_sum_for_arbitrary_blocks']
+    px.run_px(h, c.name, make_assembly_harness(c, g), cap=120, order=('lra2', 'core'), expect_goals=g)
+
+
+# =========================================================================================== JX part: O2, O3, O4
+def s0(a):
+    return a[()] if hasattr(a, 'shape') and a.shape == () else a
+
+
+def _mods():
+    from optimism import Mechanics, FunctionSpace, Interpolants, QuadratureRule, Mesh
+    from optimism.material import LinearElastic, Neohookean, MaterialModel
+    return Mechanics, FunctionSpace, Interpolants, QuadratureRule, Mesh, LinearElastic, Neohookean, MaterialModel
+
+
+MESHES = {
+    1: ([[0.0, 0.0], [1.0, 0.0], [0.0, 1.0]], [[0, 1, 2]]),
+    2: ([[0.0, 0.0], [1.0, 0.0], [1.0, 1.0], [0.0, 1.0]], [[0, 1, 2], [0, 2, 3]]),
+    3: ([[0.0, 0.0], [1.0, 0.0], [1.0, 1.0], [0.0, 1.0], [-1.0, 0.5]], [[0, 1, 2], [0, 2, 3], [0, 3, 4]]),
+}
+AXI_SHIFT = 1.0     # axisymmetric example meshes sit at r >= 1
+
+
+class Setup:
+    """parent element, quadrature rule, shape tables (ground data of the real code) and connectivity of a 1-3 element P1 mesh;
+    the function space is built INSIDE the traced function from symbolic nodal coordinates"""
+
+    def __init__(self, nel=1, qdeg=1):
+        import jax.numpy as jnp
+        M = _mods()
+        self.nel = nel
+        self.pe, self.pe1 = M[2].make_parent_elements(1)
+        self.qr = M[3].create_quadrature_rule_on_triangle(qdeg)
+        self.shp = M[2].compute_shapes(self.pe, self.qr.xigauss)
+        self.X0 = onp.asarray(MESHES[nel][0])
+        self.conns = onp.asarray(MESHES[nel][1])
+        self.nn = self.X0.shape[0]
+        self.nq = len(self.qr)
+
+    def fs(self, X, mode2D='cartesian', blocks=None, nodeSets=None):
+        import jax.numpy as jnp
+        M = _mods()
+        if blocks is None:
+            blocks = {'block_0': jnp.arange(self.nel)}
+        mesh = M[4].Mesh(X, jnp.asarray(self.conns), None, self.pe, self.pe1, blocks, nodeSets, None)
+        return M[1].construct_function_space_from_parent_element(mesh, self.shp, self.qr, mode2D)
+
+    def state(self, ns=0):
+        import jax.numpy as jnp
+        return jnp.zeros((self.nel, self.nq, ns))
+
+
+def synthetic_material(c, density=None):
+    """a path-dependent material through the repository's MaterialModel interface (harness material: exercises the state
+    plumbing of the block loops; two internal variables)"""
+    import jax.numpy as jnp
+    MaterialModel = _mods()[7].MaterialModel
+
+    def energy(H, Q, dt):
+        e = 0.5 * (H + H.T)
+        return 0.5 * c[0] * jnp.tensordot(e, e) + c[1] * Q[0] * jnp.trace(H) + c[2] * Q[1] * Q[1] * H[0, 1] + dt * Q[0] * H[1, 1] * H[0, 0]
+
+    def state_new(H, Q, dt):
+        return jnp.array([Q[0] + dt * jnp.trace(H), c[1] * Q[1] + H[0, 1] * H[1, 0]])
+    return MaterialModel(compute_energy_density=energy, compute_initial_state=lambda: jnp.zeros(2), compute_state_new=state_new, density=density)
+
+
+def material(kind, E, nu, rho=None):
+    M = _mods()
+    props = {'elastic modulus': E, 'poisson ratio': nu}
+    if rho is not None:
+        props['density'] = rho
+    if kind == 'linear':
+        return M[5].create_material_model_functions(props)
+    if kind == 'green_lagrange':
+        return M[5].create_material_model_functions(dict(props, **{'strain measure': 'green lagrange'}))
+    if kind == 'neohookean':
+        return M[6].create_material_model_functions(props)
+    if kind == 'neohookean_coupled':
+        return M[6].create_material_model_functions(dict(props, version='coupled'))
+    if kind == 'synthetic':
+        return synthetic_material([E, nu, E * nu], rho)
+    raise ValueError(kind)
+
+
+NSTATE = {'linear': 0, 'green_lagrange': 0, 'neohookean': 0, 'neohookean_coupled': 0, 'synthetic': 2}
+
+
+def _jx_encoded(h):
+    M = _mods()
+    Mech, FS, LE, NH = M[0], M[1], M[5], M[6]
+    h.encoded(Mech.create_mechanics_functions, Mech.create_multi_block_mechanics_functions, Mech.create_dynamics_functions,
+              Mech.compute_element_stiffness_from_global_fields, Mech._compute_element_stiffnesses, Mech._compute_strain_energy,
+              Mech._compute_updated_internal_variables, Mech._compute_strain_energy_multi_block, Mech._compute_updated_internal_variables_multi_block,
+              Mech._compute_element_stiffnesses_multi_block, Mech.compute_newmark_lagrangian, Mech._compute_newmark_element_hessians,
+              Mech.plane_strain_gradient_transformation, Mech.axisymmetric_element_gradient_transformation, Mech.axisymmetric_gradient,
+              Mech.strain_energy_density_to_lagrangian_density, Mech.kinetic_energy_density,
+              FS.construct_function_space_from_parent_element, FS.map_element_shape_grads, FS.compute_element_volumes, FS.compute_element_volumes_axisymmetric,
+              FS.integrate_over_block, FS.evaluate_on_block, FS.evaluate_on_element, FS.integrate_element_from_local_field, FS.compute_field_gradient,
+              FS.DofManager.create_field,
+              LE.create_material_model_functions, LE._linear_elastic_energy_density, LE.linear_strain, LE.green_lagrange_strain,
+              NH.create_material_model_functions, NH._adagio_neohookean, NH._neohookean_3D_energy_density)
+
+
+BOX = 'E > 0, -1 < nu < 1/2; coordinates, displacements, states: all reals (element Jacobians non-singular; axisymmetric: radii of the quadrature points non-zero)'
+
+
+def _box(i):
+    out = []
+    if 'E' in i:
+        out.append(v_lt(0.0, s0(i['E'])))
+    if 'nu' in i:
+        out += [v_lt(-1.0, s0(i['nu'])), v_lt(s0(i['nu']), 0.5)]
+    for k in ('rho', 'beta', 'dt'):
+        if k in i:
+            out.append(v_lt(0.0, s0(i[k])))
+    return out
+
+
+def _rand_X(S, rng, axi=False):
+    X = S.X0 + rng.uniform(-0.15, 0.15, size=S.X0.shape)
+    if axi:
+        X = X + onp.array([AXI_SHIFT, 0.0])
+    return X
+
+
+def _X0(S, axi=False):
+    return S.X0 + (onp.array([AXI_SHIFT, 0.0]) if axi else 0.0)
+
+
+import contextlib
+
+
+@contextlib.contextmanager
+def det_by_closed_form():
+    """jnp.linalg.det carries a custom JVP that runs a pivoted LU (`_cofactor_solve`), which has no relational encoding for a
+    symbolic matrix; while TRACING it is replaced by JAX's own closed-form 3x3 primal `_det_3x3` (whose derivative is the
+    cofactor matrix). Ground validation compares against, and every replay runs, the real jnp.linalg.det."""
+    import jax.numpy as jnp
+    import jax.numpy.linalg as jl
+    from jax._src.numpy import linalg as _l
+    saved = jl.det
+
+    def det3(a):
+        a = jnp.asarray(a)
+        if a.shape != (3, 3):
+            return saved(a)
+        return _l._det_3x3(a)
+    jl.det = det3
+    try:
+        yield
+    finally:
+        jl.det = saved
+
+
+NOTE_DET = ('jnp.linalg.det (3x3): its custom JVP (pivoted LU) is replaced at trace time by the derivative of JAX\'s own closed-form primal _det_3x3; '
+            'translator validation compares the encoded jaxpr with the unpatched real function, replays run the unpatched real function')
+NOTE_UF = ('log and pow (non-integer exponent) are uninterpreted functions of their arguments (Ackermannised); the symmetry / equality goals are identities of the '
+           'autodiff expressions that hold for arbitrary values of these functions')
